@@ -199,35 +199,69 @@ def event_pairing(ctx: Ctx) -> None:
     ctx.expect("R-TABLE", f, "event lists are paired with their tags (bpms[1:]/BPM, delays/DELAY+DELAY_END, stops/STOP+STOP_END)", sorted(pairs) == sorted(spec), str(pairs),
                f"pairs are {pairs}; expected {spec}", node=lb.node)
     ctx.expect("R-TABLE", f, "coalesced warps are part of the event stream", starred == [f"{sn}._coalesce_warps()"], str(starred), f"starred: {starred}", node=lb.node)
-    # _coalesce_warps returns [(starts, WARP), (ends, WARP_END)]
+    # _coalesce_warps returns [(starts, WARP), (ends, WARP_END)]; per warp: extend the last segment, or leave it, or start a new one
     cw = p.func(f"{TE}._coalesce_warps")
-    rets = [r for r in body_walk(cw.node) if isinstance(r, ast.Return)]
-    r = one(rets, f"return of {cw.fq}")
-    okw = False
-    if isinstance(r.value, (ast.List, ast.Tuple)) and len(r.value.elts) == 2 and all(isinstance(e, ast.Tuple) and len(e.elts) == 2 for e in r.value.elts):
-        tags = [try_ev(ctx, cw, e.elts[1]) for e in r.value.elts]
-        names = [ast.unparse(e.elts[0]) for e in r.value.elts]
-        okw = [t.name if isinstance(t, EnumVal) else None for t in tags] == ["WARP", "WARP_END"] and len(set(names)) == 2
-        # starts hold warp.beat, ends hold warp.beat + Beat(warp.value)
-        apps = {}
-        for c in method_calls(cw, "append"):
-            if isinstance(c.func.value, ast.Name) and c.args and isinstance(c.args[0], ast.Call):
-                kw = {k.arg: k.value for k in c.args[0].keywords}
-                if "beat" in kw:
-                    apps.setdefault(c.func.value.id, set()).add(ast.unparse(inline(kw["beat"], cw)))
-        okw = okw and len(apps.get(names[0], ())) == 1 and len(apps.get(names[1], ())) == 1
-        if okw:
-            st, en = list(apps[names[0]])[0], list(apps[names[1]])[0]
-            okw = bool(re.fullmatch(r"(\w+)\.beat", st)) and bool(re.fullmatch(r"(\w+)\.beat \+ Beat\((\w+)\.value\)", en))
-    ctx.expect("R-TABLE", cw, "warps become (start, WARP) and (start + length, WARP_END) events", okw, "", f"{src(r.value)}", node=r)
-    loops = [lp for lp in for_loops(cw) if ast.unparse(lp.iter) == f"{cw.param_names()[0]}.timing_data.warps"]
-    ctx.expect("R-TABLE", cw, "every warp of the timing data is considered", len(loops) == 1 and not [n for st in loops[0].body for n in walk_no_nested(st) if isinstance(n, (ast.Continue, ast.Break))] if loops else False,
-               "", "", node=cw.node)
-    # coalescing comparisons: touching warps are merged (<=), and the end only grows (>)
-    if loops:
-        cmps = [(ast.unparse(n.left), type(n.ops[0]).__name__, ast.unparse(n.comparators[0])) for st in loops[0].body for n in walk_no_nested(st) if isinstance(n, ast.Compare)]
-        okc = any(op == "LtE" and l.endswith(".beat") for l, op, r_ in cmps) and any(op == "Gt" for l, op, r_ in cmps)
-        ctx.expect("R-TABLE", cw, "overlapping or touching warps act as their union (start <= last end; end only grows)", okc, str(cmps), f"comparisons: {cmps}", node=loops[0])
+    from .tables import judge as tjudge, loop_decs, sums_of as tsums
+    csums = tsums(ctx, cw)
+    rets = {ast.unparse(s_.terminal()[1]) if s_.terminal()[1] is not None else s_.terminal()[0] for s_ in csums}
+    S = E = None
+    if len(rets) == 1:
+        try:
+            rv = ast.parse(next(iter(rets)), mode="eval").body
+        except SyntaxError:
+            rv = None
+        if isinstance(rv, (ast.List, ast.Tuple)) and len(rv.elts) == 2 and all(isinstance(e, ast.Tuple) and len(e.elts) == 2 and isinstance(e.elts[0], ast.Name) for e in rv.elts):
+            if [ast.unparse(e.elts[1]) for e in rv.elts] == ["EventTag.WARP", "EventTag.WARP_END"]:
+                S, E = rv.elts[0].elts[0].id, rv.elts[1].elts[0].id
+    ctx.expect("R-TABLE", cw, "warps become (starts, WARP) and (ends, WARP_END) event lists", S is not None and S != E, str(sorted(rets)), f"returns {sorted(rets)}", node=cw.node)
+    if S is not None and S != E:
+        fresh = all(any(e.kind == "bind" and isinstance(e.target, ast.Name) and e.target.id == nm and e.value is not None and ast.unparse(e.value) == "BeatValues()" and not e.loops for e in s_.effects)
+                    for s_ in csums for nm in (S, E))
+        ctx.expect("R-TABLE", cw, "both lists start empty", fresh, "", f"{S} / {E} are not fresh BeatValues() before the loop", node=cw.node)
+        wl = {(ast.unparse(e.target), e.line) for s_ in csums for e in s_.effects if e.kind == "for" and ast.unparse(e.value) == f"{cw.param_names()[0]}.timing_data.warps"}
+        allloops = {e.line for s_ in csums for e in s_.effects if e.kind == "for"}
+        ctx.expect("R-TABLE", cw, "every warp of the timing data is considered, in order", len(wl) == 1 and len(allloops) == 1, str(sorted(wl)), f"loops over the warps: {sorted(wl)} (all loops: {sorted(allloops)})", node=cw.node)
+        if len(wl) == 1 and len(allloops) == 1:
+            w, line = next(iter(wl))
+            WEND = f"{w}.beat + Beat({w}.value)"
+            A, Bc, C = S, f"{w}.beat <= {E}[-1].beat", f"{WEND} > {E}[-1].beat"
+
+            def spec(a):
+                if a[A] and a[Bc]:
+                    return (f"{E}[-1] = BeatValue(beat={WEND}, value=Decimal(0))",) if a[C] else ()
+                return (f"{S}.append(BeatValue(beat={w}.beat, value=Decimal(0)))", f"{E}.append(BeatValue(beat={WEND}, value=Decimal(0)))")
+
+            from .tables import touches as _touches
+            # a loop-carried copy of the last segment's end (None while there is no segment) is the same thing as reading it from the list:
+            # accepted when it is re-bound to the new end on exactly the paths that change the last element of the ends list
+            fix = lambda t: t
+            extra_equiv = {}
+            cands = {e.target.id for s_ in csums for e in s_.effects if e.kind == "bind" and line in e.loops and isinstance(e.target, ast.Name) and e.target.id not in (S, E)
+                     and e.value is not None and ast.unparse(e.value) == WEND}
+            for L in sorted(cands):
+                coherent = True
+                for s_ in csums:
+                    fi_ = next((i for i, e in enumerate(s_.effects) if e.kind == "for" and e.line == line), None)
+                    if fi_ is None:
+                        continue
+                    r0 = s_.resolve(L, fi_)
+                    if r0 is None or r0[1].value is None or ast.unparse(r0[1].value) != "None":
+                        coherent = False
+                    changes = [e for e in s_.effects if line in e.loops and e.kind != "bind" and _touches(e, [E])]
+                    rebinds = [e for e in s_.effects if line in e.loops and e.kind == "bind" and isinstance(e.target, ast.Name) and e.target.id == L]
+                    if bool(changes) != bool(rebinds) or any(ast.unparse(e.value) != WEND for e in rebinds):
+                        coherent = False
+                if coherent:
+                    import re as _re
+                    fix = (lambda t, _L=L, _f=fix: _re.sub(rf"\b{_L}\b", f"{E}[-1].beat", _f(t)))
+                    extra_equiv[f"{E}[-1].beat is None"] = (A, False)
+                    ctx.observe("R-TABLE", cw, f"'{L}' is a loop-carried copy of the last segment end", "re-bound on exactly the paths that change the ends list; None while no segment exists", node=cw.node)
+            decs = loop_decs(csums, line, [S, E], fix=fix, relevant=lambda e: e.kind != "bind" and _touches(e, [S, E]))
+            eqv = {f"len({S}) > 0": (A, True), f"{E}": (A, True), f"len({E}) > 0": (A, True)}
+            eqv.update(extra_equiv)
+            tjudge(ctx, "R-TABLE", cw, "overlapping or touching warps act as their union: a warp starting at or before the last end extends it when it ends later (<=, >); any other warp starts a new segment", decs,
+                   [A, Bc, C], spec, equiv=eqv,
+                   why="the WARP / WARP_END events must alternate and cover exactly the union of the warps")
     # initial state
     cons = record_constructions(ctx, f, f"{ENG}.TimingState")
     c = one(cons, f"initial TimingState in {f.fq}")
@@ -694,24 +728,29 @@ def beatvalues_codec(ctx: Ctx, judge_source: bool = True) -> None:
     ctx.expect("R-TABLE", st, "rows are written beat=value joined by ',' + whitespace", okw, "", f"{src(rr[0].value) if rr else ''}", node=st.node)
     fs_ = ci.methods["from_str"]
     sp = fs_.param_names()[1]
-    loops = [lp for lp in for_loops(fs_) if _is_split(lp.iter, sp, ",")]
-    lp = one(loops, f"row loop in {fs_.fq}")
-    rv = lp.target.id
-    unp = [n for st_ in lp.body for n in walk_no_nested(st_) if isinstance(n, ast.Assign) and isinstance(n.targets[0], ast.Tuple) and len(n.targets[0].elts) == 2]
-    oku = len(unp) == 1 and ast.unparse(unp[0].value) == f"{rv}.strip().split('=')"
-    ctx.expect("R-TABLE", fs_, "each row is stripped and split on '='", oku, "", f"{src(unp[0].value) if unp else ''}", node=lp)
-    if oku:
-        b, v = [e.id for e in unp[0].targets[0].elts]
-        cons = record_constructions(ctx, fs_, "simfile.timing.BeatValue")
-        c = one(cons, f"BeatValue construction in {fs_.fq}")
-        fm = field_map(ctx, "simfile.timing.BeatValue", c)
-        okc = ast.unparse(fm.get("beat")) == f"Beat.from_str({b})" and ast.unparse(fm.get("value")) == f"Decimal({v})"
-        ctx.expect("R-TABLE", fs_, "beat via Beat.from_str, value as an exact Decimal (no float on the value path)", okc, "", f"{src(c)}", node=c)
-        ap = [c_ for c_ in method_calls(fs_, "append") if c_.args and c_.args[0] is c and in_body(lp, c_)]
-        ctx.expect("R-ORDER", fs_, "every row is appended in order", len(ap) == 1 and not [n for st_ in lp.body for n in walk_no_nested(st_) if isinstance(n, (ast.Continue, ast.Break))], "", "", node=lp)
-    fsx = facts(ctx, fs_, lp)
-    okg = sorted((ast.unparse(a), pol) for a, pol in fsx) == sorted([(sp, True), (f"{sp}.strip()", True)])
-    ctx.expect("R-TABLE", fs_, "an absent or blank string is the empty list", okg, unparse_facts(fsx), "", node=lp)
+    from .tables import closed_text, function_decs, judge as tjudge, loop_decs, sums_of as tsums, touches
+    sums = tsums(ctx, fs_)
+    insts = {e.target.id for s_ in sums for e in s_.effects if e.kind == "bind" and isinstance(e.target, ast.Name) and e.value is not None and ast.unparse(e.value) == f"{fs_.param_names()[0]}()"}
+    rets = {ast.unparse(s_.terminal()[1]) if s_.terminal()[1] is not None else s_.terminal()[0] for s_ in sums}
+    require(len(insts) == 1, f"{fs_.fq}: expected one local holding cls(), found {sorted(insts)}")
+    inst = next(iter(insts))
+    ctx.expect("R-TABLE", fs_, "from_str returns the list it filled", rets == {inst}, str(sorted(rets)), f"returns {sorted(rets)}", node=fs_.node)
+    loops = {(ast.unparse(e.target), e.line, ast.unparse(e.value)) for s_ in sums for e in s_.effects if e.kind == "for"}
+    rows = [l for l in loops if l[2] == f"{sp}.split(',')"]
+    ctx.expect("R-TABLE", fs_, "the rows are the ','-separated pieces of the string", len(rows) == 1 and len(loops) == 1, str(sorted(loops)), f"loops: {sorted(loops)}", node=fs_.node)
+    if len(rows) == 1 and len(loops) == 1:
+        rv, line, _ = rows[0]
+        want = f"{inst}.append(BeatValue(beat=Beat.from_str({rv}.strip().split('=')[0]), value=Decimal({rv}.strip().split('=')[1])))"
+        decs = []
+        from .tables import Dec
+        for s_ in sums:
+            if any(e.kind == "for" and e.line == line for e in s_.effects):
+                decs.append(Dec(dict(s_.atoms_in(line)), tuple(closed_text(s_, e, keep=[inst]) for e in s_.effects if line in e.loops and touches(e, [inst]) and e.kind != "bind"), s_))
+        tjudge(ctx, "R-ORDER", fs_, "every row 'beat=value' is stripped, split on '=' and appended in order: beat via Beat.from_str, value as an exact Decimal (no float on the value path)", decs, [],
+               lambda a: (want,), why="each row of the text must become one BeatValue, in text order")
+        A, Bk = sp, f"{sp}.strip()"
+        fdecs = function_decs(sums, lambda s_: "rows" if any(e.kind == "for" for e in s_.effects) else "empty")
+        tjudge(ctx, "R-TABLE", fs_, "an absent or blank string is the empty list; anything else is parsed", fdecs, [A, Bk], lambda a: "rows" if (a[A] and a[Bk]) else "empty")
     timingdata_fields(ctx, judge_source)
 
 
